@@ -12,7 +12,7 @@ PROP = "C07"
 RULE = ("Generator: rasters 2..10 a side (float64/float32) as Dask arrays with a drawn composition of H and of W as chunks (forced classes all-ones, single "
         "chunk, 1-cell first/last chunk), scheduler {synchronous, threads x {1,2,4,16}}, function drawn from {proximity, allocation, direction}, metric "
         "{EUCLIDEAN, MANHATTAN; GREAT_CIRCLE only on the single-block path or with sub-cell max_distance}, max_distance drawn relative to the cell sizes "
-        "(k*cs*(1-d), k*cs, k*cs*(1+d) for k in 0..min(H,W) with cs the x or the y cell size, fractions of a cell, inf, >= raster diagonal), non-square cells, "
+        "(k*cs*(1-d), k*cs, k*cs*(1+d) for k in 0..min(H,W) with cs the x or the y cell size, fractions of a cell, inf, >= raster diagonal), dyadic and non-dyadic (0.1, 1.1, 30.1) non-square cell sizes, "
         "asc/desc axes, res attr absent or consistent with the coordinates, explicit target_values; domain by construction: halo int(md/cell+0.5) <= H and <= W. "
         "Oracle: the same call on the NumPy raster (same NaN pattern, values 2e-6 relative, bearings 1e-3 deg mod 360), result Dask-backed before compute. "
         "Exhaustive shards: every composition product of fixed 3x3/4x4 (quick) and 5x5 (thorough) rasters. Non-trivial: >= 2 chunks on an axis, finite halo >= 1 "
@@ -84,6 +84,8 @@ def body_dask(case, ctx):
         r.label("all_one_cell_chunks")
     if cross:
         r.label("target_reaches_across_chunk_edge")
+    if case.get("edge"):
+        r.label("constructed_halo_edge_constellation")
     coords = {"y": ys, "x": xs}
     ref = np.asarray(fn(xr.DataArray(a.copy(), dims=["y", "x"], coords=coords, attrs=dict(attrs)), **kw).values, dtype="float64")
     dras = xr.DataArray(da.from_array(a.copy(), chunks=chunks), dims=["y", "x"], coords=coords, attrs=dict(attrs))
@@ -126,15 +128,16 @@ SCHEDS = ["synchronous", "synchronous", "threads:1", "threads:2", "threads:4", "
 @st.composite
 def dask_cases(draw, max_side):
     h, w = draw(st.integers(2, max_side)), draw(st.integers(2, max_side))
-    metric = draw(st.sampled_from(["EUCLIDEAN", "EUCLIDEAN", "MANHATTAN", "MANHATTAN", "GREAT_CIRCLE"]))
+    metric = draw(st.sampled_from(["EUCLIDEAN", "EUCLIDEAN", "EUCLIDEAN", "MANHATTAN", "MANHATTAN", "MANHATTAN", "EUCLIDEAN", "GREAT_CIRCLE"]))
     if metric == "GREAT_CIRCLE":
         sy = draw(st.sampled_from([0.5, 2.0, 10.0]))
         sx = draw(st.sampled_from([0.5, 5.0, 20.0]))
         y = {"start": -sy * (h - 1) / 2, "step": sy, "n": h, "desc": draw(st.booleans())}
         x = {"start": -sx * (w - 1) / 2, "step": sx, "n": w, "desc": False}
     else:
-        y = draw(S.axis_coords(h, steps=(1, 0.5, 2, 0.25, 3), offsets=(0, -7.5, 100)))
-        x = draw(S.axis_coords(w, steps=(1, 0.5, 2, 0.25, 3), offsets=(0, 10.25)))
+        # dyadic and non-dyadic steps: with 0.1 / 1.1 / 30.1 the quotient max_distance / cellsize is not exact
+        y = draw(S.axis_coords(h, steps=(1, 0.5, 2, 0.25, 3, 0.1, 1.1, 30.1, 0.3), offsets=(0, -7.5, 100)))
+        x = draw(S.axis_coords(w, steps=(1, 0.5, 2, 0.25, 3, 0.1, 1.1, 30.1, 0.7), offsets=(0, 10.25)))
         sy, sx = y["step"], x["step"]
     dtype = draw(st.sampled_from(["float64", "float64", "float32"]))
     dens = draw(st.sampled_from([3, 6, 12, 25]))
@@ -150,7 +153,7 @@ def dask_cases(draw, max_side):
         unit = P.haversine(0, min(sx, 1.0), 0, 0)
         md = draw(st.sampled_from([None, 4.1e7, unit * 0.2]))   # single block, >= half circumference, or far below one cell
     else:
-        mode = draw(st.sampled_from(["inf", "diag", "k", "k", "k", "k", "frac"]))
+        mode = draw(st.sampled_from(["inf", "diag", "k", "k", "k", "k", "k", "k", "k", "frac"]))
         if mode == "inf":
             md = None
         elif mode == "diag":
@@ -160,9 +163,11 @@ def dask_cases(draw, max_side):
         else:
             cs = draw(st.sampled_from([sy, sx]))
             k = draw(st.integers(0, min(h, w)))
-            md = k * cs * draw(st.sampled_from([0.999, 1.0, 1.001, 1.3])) + draw(st.sampled_from([0, 0.3 * cs]))
+            md = k * cs * draw(st.sampled_from([0.999, 1.0, 1.0, 1.0, 1.001, 1.3])) + draw(st.sampled_from([0, 0, 0.3 * cs]))
             if md <= 0:
                 md = 0.3 * cs
+            if draw(st.booleans()):
+                md = round(md, 4)   # decimal literal (3.3 rather than 3 * 1.1)
             # keep the halo inside the raster on both axes (stated domain)
             while int(md / sy + 0.5) > h or int(md / sx + 0.5) > w:
                 md *= 0.5
@@ -170,6 +175,50 @@ def dask_cases(draw, max_side):
             "metric": metric, "target_values": tv, "max_distance": md, "chunks": [draw(S.chunking(h)), draw(S.chunking(w))],
             "scheduler": draw(st.sampled_from(SCHEDS)), "func": draw(st.sampled_from(FUNCS)),
             "res": draw(st.sampled_from([None, None, "tuple", "list"]))}
+
+
+@st.composite
+def edge_cases(draw):
+    """Constructed constellation: a single target exactly k cells (along one axis) from a cell that is the first/last cell of a
+    neighbouring chunk, max_distance = k * cellsize, dyadic and non-dyadic cell sizes - the cell is reachable only through the
+    outermost halo line."""
+    cs = draw(st.sampled_from([0.1, 1.1, 30.1, 0.2, 0.4, 0.7, 0.3, 1.0, 0.5, 3.0]))
+    other = draw(st.sampled_from([1.0, 0.5, 2.0, 1.1, 0.1, 30.1]))
+    k = draw(st.integers(1, 3))
+    along_x = draw(st.booleans())
+    n = draw(st.integers(2 * k + 2, 12))           # length of the axis the target reaches along
+    m = draw(st.integers(2, 4))                    # the other axis
+    t = draw(st.integers(0, n - 1 - k))            # target index; the facing cell is t+k (or mirrored)
+    mirror = draw(st.booleans())
+    line = draw(st.integers(0, m - 1))
+    cut = t + k                                    # chunk boundary just before the facing cell
+    if cut <= 0 or cut >= n:
+        cut = max(1, min(n - 1, cut))
+    long_chunks = [cut, n - cut]
+    if draw(st.booleans()) and n - cut > 1:
+        long_chunks = [cut, 1, n - cut - 1]        # the facing cell alone in its chunk
+    short_chunks = draw(S.chunking(m))
+    data = [[0.0] * (n if along_x else m) for _ in range(m if along_x else n)]
+    ti = (n - 1 - t) if mirror else t
+    if mirror:
+        long_chunks = long_chunks[::-1]
+    if along_x:
+        data[line][ti] = 2.5
+    else:
+        data[ti][line] = 2.5
+    sx, sy = (cs, other) if along_x else (other, cs)
+    w, h = (n, m) if along_x else (m, n)
+    md = k * cs * draw(st.sampled_from([1.0, 1.0, 1.0, 0.9999, 1.0001]))
+    if draw(st.booleans()):
+        md = round(md, 4)   # the decimal literal a user would type (3.3, not 3 * 1.1 = 3.3000000000000003)
+    while int(md / sy + 0.5) > h or int(md / sx + 0.5) > w:
+        md *= 0.5
+    return {"sub": "dask", "raster": {"dtype": draw(st.sampled_from(["float64", "float32"])), "data": data},
+            "y": {"start": draw(st.sampled_from([0, -7.5])), "step": sy, "n": h, "desc": draw(st.booleans())},
+            "x": {"start": draw(st.sampled_from([0, 10.25])), "step": sx, "n": w, "desc": False},
+            "metric": draw(st.sampled_from(["EUCLIDEAN", "MANHATTAN"])), "target_values": [], "max_distance": md,
+            "chunks": [short_chunks, long_chunks] if along_x else [long_chunks, short_chunks],
+            "scheduler": "synchronous", "func": draw(st.sampled_from(FUNCS)), "res": draw(st.sampled_from([None, "tuple"])), "edge": True}
 
 
 FIXED = {
@@ -196,10 +245,12 @@ def enum_cases(n, variant, lo, hi):
 
 def shards(tier):
     out = []
-    nr, per = (11, 14) if tier == "quick" else (12, 400)
+    nr, per = (9, 14) if tier == "quick" else (12, 400)
     side = 8 if tier == "quick" else 10
     for i in range(nr):
         out.append(("rand#%d" % i, lambda ctx: drive_hypothesis(ctx, body_dask, dask_cases(side), per, shrink=(tier == "thorough"))))
+    for i in range(3 if tier == "quick" else 4):
+        out.append(("edge#%d" % i, lambda ctx: drive_hypothesis(ctx, body_dask, edge_cases(), per if tier == "quick" else 300, shrink=(tier == "thorough"))))
     if tier == "quick":
         plan = [(3, 0, 1), (3, 1, 1), (4, 0, 3)]
     else:
